@@ -248,6 +248,23 @@ def stepOld (s : St) : Thread → List (St × Thread)
 /-- the protocol of the code before the Enqueue repair -/
 def sysOld : Sys St Thread := ⟨stepOld⟩
 
+/-- The writer with the two loads of its loop condition swapped (`scheduledCount.Load() != 0 || running.Load()`):
+kept only for `C08_loop_condition_order_witness` — the order pinned by `C08_skeleton_runBatchWriter` /
+`C08_stmts_BatchedWriter_runBatchWriter` is load-bearing. -/
+def stepWriterSwapped (s : St) : List St :=
+  match s.wpc with
+  | .loopRun =>
+    if s.count ≠ 0 then [{ s with wpc := .sel, batch := [], muts := [], fl := false }] else [{ s with wpc := .loopCnt }]
+  | .loopCnt =>
+    if s.running then [{ s with wpc := .sel, batch := [], muts := [], fl := false }] else [{ s with wpc := .wgDone }]
+  | _ => stepWriter s
+
+def stepSwapped (s : St) : Thread → List (St × Thread)
+  | .writer => (stepWriterSwapped s).map (fun s' => (s', .writer))
+  | t => step s t
+
+def sysSwapped : Sys St Thread := ⟨stepSwapped⟩
+
 def initSt (q b : Nat) : St := { qsize := q, bsize := b }
 
 /-- Initial thread states: every call still to be made. -/
@@ -341,6 +358,13 @@ def twoStopsSched : List (Nat × Nat) :=
 the producer hands the object over and returns (2), the writer resets, decrements, writes (3); the rest as above. -/
 def twoStopsSchedU : List (Nat × Nat) :=
   rep 0 13 ++ rep 3 2 ++ rep 0 2 ++ rep 3 3 ++ rep 1 4 ++ rep 2 1 ++ rep 3 6 ++ rep 1 3 ++ rep 2 4
+
+/-- Swapped loop condition: the producer runs up to its counter increment (10), the writer starts and loads the
+counter = 0 (2), the producer increments and passes the running check (2), Stop clears `running` and waits (4), the
+writer loads `running = false` and leaves (2), Stop returns (3), the producer marks its object, sends it and returns
+(3): scheduled, queued, never written. -/
+def swappedSched : List (Nat × Nat) :=
+  rep 0 10 ++ rep 2 2 ++ rep 0 2 ++ rep 1 4 ++ rep 2 2 ++ rep 1 3 ++ rep 0 3
 
 def stuckProducers (S : Sys St Thread) (c : Cfg St Thread) : List Nat :=
   c.2.filterMap (fun t => match t with
